@@ -419,11 +419,21 @@ inductive ApiResult where
   | badRequest | unauthorized | crash | refused (r : Reason) | signError | created (c : Cert)
   deriving DecidableEq, Repr
 
-/-- `AuthorizeRenewToken` decision skeleton: the provisioner must load (noop is an error here). -/
+/-- `isRAProvisioner(p)` for the provisioner `LoadProvisionerByCertificate` returned: only a
+    `*wrappedProvisioner` built from a database record with `RaInfo` implements `raProvisioner`
+    with non-nil RA information. -/
+def isRAProvisioner : Option Prov → Bool
+  | some (.stored _ wrapped) => wrapped
+  | _ => false
+
+/-- `AuthorizeRenewToken` decision skeleton: the provisioner must load (noop is an error here);
+    the audience test is `!matchesAudience(…) && !isRAProvisioner(p)`: a renew token for a
+    certificate issued through a registration authority is addressed to the RA's URL, so its
+    audience is deliberately not compared. -/
 def authorizeRenewToken (i : GateIn) : Entry → Bool
   | .token parses claimsVerify tokenUnused claimsValid audienceOk issuerOk =>
     parses && claimsVerify && (loadByCertificate i).isSome && tokenUnused && claimsValid &&
-      audienceOk && issuerOk
+      (audienceOk || isRAProvisioner (loadByCertificate i)) && issuerOk
   | _ => false
 
 def apiRenew (v : Variant) (env : Env) (i : GateIn) (old : Cert) (pk : Option Str) (e : Entry) : ApiResult :=
